@@ -142,7 +142,7 @@ def make_roundtrip(oid, fmt, n_max, xyz_source=False, other_first=False, tiers=(
         w = world()
         Grid = w.get("uxarray.grid.grid", "Grid")
         if other_first:
-            # another, larger grid with edges and centres is encoded first (all three formats)
+            # another, larger grid with edges and centres is encoded first
             og = C.clone_grid(C.sarr_int([[0, 1, 2, 3, 4], [0, 4, 5, F, F], [5, 4, 6, 7, F], [1, 0, 5, F, F]]), *C.default_lonlat(8))
             og.edge_node_connectivity, og.face_edge_connectivity, og.face_lon, og.edge_lon
             og.to_xarray("ugrid")
@@ -328,7 +328,7 @@ def make_roundtrip(oid, fmt, n_max, xyz_source=False, other_first=False, tiers=(
         return None
 
     return Obligation(oid, f"{fmt} round trip ({'xyz-bearing' if xyz_source else 'lon/lat'} source{', another grid encoded first' if other_first else ''})",
-                      setup, run, replay, exact=True, functions=FUNCS[fmt],
+                      setup, run, replay, exact=False, functions=FUNCS[fmt],
                       bounds=(f"fixed table {[C.face_corners(r) for r in fixed]}" if fixed else
                               f"{N_FACE} faces of 3..{n_max} corners (every size mix / padding layout, symbolic numbering)") +
                              f" over {N_NODE} nodes with symbolic positions; symbolic history flags {list(flags)} (2^{len(flags)} materialisation sets)",
